@@ -469,8 +469,20 @@ func rewriteValue(m krammar.Mark, step int, extreme bool, cur, rem int64) (int64
 	return 0, false
 }
 
+// Phases of derived inputs. They are run by separate tests in this order (the runs use
+// -test.failfast): a decoder that lost a length guard fails phaseModerate in every
+// shard within seconds and cheaply (also while rapid shrinks), whereas bit flips,
+// arbitrary bytes and extreme claims would make such a decoder allocate gigabytes or
+// loop 2^30 times per input.
+const (
+	phaseModerate = iota
+	phaseBitflip
+	phaseExtreme
+)
+
 // derive builds the mutated and max-claim inputs from one valid encoding.
-func derive(rt *rapid.T, enc *krammar.Enc, extreme bool) []derived {
+func derive(rt *rapid.T, enc *krammar.Enc, phase int) []derived {
+	extreme := phase == phaseExtreme
 	buf := enc.Buf
 	var out []derived
 	var lens []krammar.Mark
@@ -501,6 +513,23 @@ func derive(rt *rapid.T, enc *krammar.Enc, extreme bool) []derived {
 					out = append(out, derived{"rewrite_extreme", nb})
 				}
 			}
+		}
+		return out
+	}
+	if phase == phaseBitflip {
+		if len(buf) == 0 {
+			return out
+		}
+		nf := 24
+		for i := 0; i < nf; i++ {
+			pos := rapid.IntRange(0, len(buf)*8-1).Draw(rt, "flip")
+			nb := append([]byte{}, buf...)
+			nb[pos/8] ^= 1 << uint(pos%8)
+			if i >= nf/2 { // a second flip
+				pos = rapid.IntRange(0, len(buf)*8-1).Draw(rt, "flip2")
+				nb[pos/8] ^= 1 << uint(pos%8)
+			}
+			out = append(out, derived{"bitflip", nb})
 		}
 		return out
 	}
@@ -578,20 +607,6 @@ func derive(rt *rapid.T, enc *krammar.Enc, extreme bool) []derived {
 			}
 		}
 	}
-	// bit flips
-	if len(buf) > 0 {
-		nf := 8
-		for i := 0; i < nf; i++ {
-			pos := rapid.IntRange(0, len(buf)*8-1).Draw(rt, "flip")
-			nb := append([]byte{}, buf...)
-			nb[pos/8] ^= 1 << uint(pos%8)
-			if i >= nf/2 { // a second flip
-				pos = rapid.IntRange(0, len(buf)*8-1).Draw(rt, "flip2")
-				nb[pos/8] ^= 1 << uint(pos%8)
-			}
-			out = append(out, derived{"bitflip", nb})
-		}
-	}
 	return out
 }
 
@@ -637,12 +652,12 @@ func validEncoding(rt *rapid.T, c krammar.Cell) *krammar.Enc {
 }
 
 // structured runs inputs (b) and (c) for one drawn valid value of the cell.
-func structured(rt *rapid.T, c krammar.Cell, extreme bool) {
+func structured(rt *rapid.T, c krammar.Cell, phase int) {
 	enc := validEncoding(rt, c)
-	if !extreme {
+	if phase == phaseModerate {
 		one(rt, c, "valid", enc.Buf)
 	}
-	for _, d := range derive(rt, enc, extreme) {
+	for _, d := range derive(rt, enc, phase) {
 		one(rt, c, d.kind, d.data)
 	}
 }
@@ -705,7 +720,7 @@ func TestStructured(t *testing.T) {
 	extras()
 	for _, c := range shardCells() {
 		c := c
-		rapid.Check(t, func(rt *rapid.T) { structured(rt, c, false) })
+		rapid.Check(t, func(rt *rapid.T) { structured(rt, c, phaseModerate) })
 		if t.Failed() {
 			return
 		}
@@ -723,12 +738,29 @@ func TestHandwritten(t *testing.T) {
 		c := c
 		rapid.Check(t, func(rt *rapid.T) {
 			for i := 0; i < 12; i++ {
-				structured(rt, c, false)
+				structured(rt, c, phaseModerate)
 				ev.Class("handwritten_values")
 			}
-			for i := 0; i < 12; i++ {
-				in := rapid.SliceOfN(rapid.Byte(), 0, 64).Draw(rt, "bytes")
-				one(rt, c, "arbitrary", in)
+		})
+		if t.Failed() {
+			return
+		}
+	}
+}
+
+// TestBitflips: single and double bit flips of valid encodings, for every cell (the
+// hand-written and record decoders get 12 values per check).
+func TestBitflips(t *testing.T) {
+	load(t)
+	for _, c := range shardCells() {
+		c := c
+		n := 1
+		if handwritten(c) {
+			n = 12
+		}
+		rapid.Check(t, func(rt *rapid.T) {
+			for i := 0; i < n; i++ {
+				structured(rt, c, phaseBitflip)
 			}
 		})
 		if t.Failed() {
@@ -744,6 +776,9 @@ func TestArbitrary(t *testing.T) {
 		c := c
 		rapid.Check(t, func(rt *rapid.T) {
 			n := rapid.IntRange(1, 6).Draw(rt, "n")
+			if handwritten(c) {
+				n = 24
+			}
 			for i := 0; i < n; i++ {
 				in := rapid.SliceOfN(rapid.Byte(), 0, 96).Draw(rt, "bytes")
 				one(rt, c, "arbitrary", in)
@@ -761,7 +796,7 @@ func TestExtreme(t *testing.T) {
 	load(t)
 	for _, c := range shardCells() {
 		c := c
-		rapid.Check(t, func(rt *rapid.T) { structured(rt, c, true) })
+		rapid.Check(t, func(rt *rapid.T) { structured(rt, c, phaseExtreme) })
 		if t.Failed() {
 			return
 		}
